@@ -822,6 +822,21 @@ fn dyn_cells(ca: &tevec::export::polars::prelude::Float64Chunked) -> Vec<(&'stat
     same_f64!("Series(f64).ts_skew", ts_skew, ts_vskew);
     same_f64!("Series(f64).ts_kurt", ts_kurt, ts_vkurt);
     same_f64!("Series(f64).ts_zscore", ts_zscore, ts_vzscore);
+    // the integer dtypes forward to the kernels of their own dtype (the result stays in that dtype)
+    out.push(("Series(i32).ts_mean / ts_zscore", flat(catch(|| {
+        let vi: Vec<Option<i32>> = ca.into_iter().map(|x| x.map(|y| (y * 2.0) as i32)).collect();
+        let ci = Int32Chunked::from_slice_options("qty".into(), &vi);
+        let si = ci.clone().into_series();
+        let d = si.ts_mean(3, Some(2)).map_err(|e| format!("dynamic call failed: {e}"))?;
+        let st: Int32Chunked = ci.ts_vmean(3, Some(2));
+        if d.name().as_str() != "qty" { return Err(format!("the name became {:?}", d.name())); }
+        let dc = d.i32().map_err(|e| format!("the result is not an Int32 column: {e}"))?;
+        if dc.into_iter().collect::<Vec<_>>() != st.into_iter().collect::<Vec<_>>() { return Err("dynamic ts_mean differs from the static ts_vmean on Int32".into()); }
+        let d = si.ts_zscore(3, Some(2)).map_err(|e| format!("dynamic call failed: {e}"))?;
+        let st: Int32Chunked = ci.ts_vzscore(3, Some(2));
+        if d.i32().map_err(|e| e.to_string())?.into_iter().collect::<Vec<_>>() != st.into_iter().collect::<Vec<_>>() { return Err("dynamic ts_zscore differs from the static ts_vzscore on Int32".into()); }
+        Ok(())
+    }))));
     // a dtype without kernels is an error, not a panic
     out.push(("Series(bool).ts_mean", flat(catch(|| {
         let b = BooleanChunked::from_slice("flag".into(), &[true, false, true]).into_series();
